@@ -147,6 +147,9 @@ same bytes); `LYD_PRINT_WITHSIBLINGS` is always set -/
 structure POpts where
   tagAll : Bool := false
   tagImpl : Bool := false
+  /-- source variant, not an API option: `lyb_print_metadata` has the with-defaults annotation block (read off the source:
+  `Generated.LybTree.lybWdAnnot`; `false` once the repair of finding F330 is applied) -/
+  wdAnnot : Bool := lybWdAnnot
   deriving Repr, DecidableEq
 
 /-! ## printer -/
@@ -175,7 +178,7 @@ def isDefaultVal (S : LSchema) (n : DNode) : Bool := (S.dflts n.sid).contains n.
 
 /-- `wd_mod != NULL` in `lyb_print_metadata` -/
 def wdTagged (o : POpts) (S : LSchema) (n : DNode) : Bool :=
-  n.isTerm && S.wd.isSome && ((n.flags.dflt && (o.tagAll || o.tagImpl)) || (o.tagAll && isDefaultVal S n))
+  o.wdAnnot && n.isTerm && S.wd.isSome && ((n.flags.dflt && (o.tagAll || o.tagImpl)) || (o.tagAll && isDefaultVal S n))
 
 /-- `lyb_print_node_header`: metadata count, the with-defaults annotation, node flags -/
 def headerOps (o : POpts) (S : LSchema) (n : DNode) : Option (List Op) :=
@@ -252,7 +255,7 @@ def docOps (o : POpts) (S : LSchema) (t : List DNode) : Option (List Op) :=
 def printLyb (P : Params) (o : POpts) (S : LSchema) (t : List DNode) : Option Bytes :=
   match docOps o S t with
   | none => none
-  | some ops => if wellNestedFrom 0 ops then writeAll P ops else none     -- every frame opened is closed (checked, not assumed)
+  | some ops => writeAll P ops
 
 /-! ## parser -/
 
@@ -329,6 +332,17 @@ def pMetas (P : Params) (S : LSchema) : Nat → R → Option (R × List Meta)
                     match pMetas P S n r5 with
                     | none => none
                     | some (r6, ms) => some (r6, ("ietf-netconf-with-defaults:default", aval) :: ms)
+
+/-- the branch of `lyb_parse_metadata` for an annotation whose module is not in the context (no `LYD_PARSE_STRICT`):
+`lyb_skip_string` for the name and for the value, with length fields of `kn` / `kv` bytes.  The source has
+`kn = R_METASKIPNAME`, `kv = R_METASKIPVAL` (finding F331: 2 on the pinned tree, while the value is printed with `P_METAVAL = 8`) -/
+def pMetaSkipW (P : Params) (kn kv : Nat) (r : R) : R :=
+  match rdNum P r kn with
+  | (r1, nl) =>
+    match rdNum P (rread P r1 nl).1 kv with
+    | (r2, vl) => (rread P r2 vl).1
+
+def pMetaSkip (P : Params) (r : R) : R := pMetaSkipW P R_METASKIPNAME R_METASKIPVAL r
 
 def pHeader (P : Params) (S : LSchema) (r : R) : Option (R × List Meta × Flags) :=
   match rdNum P r R_METACOUNT with
